@@ -434,6 +434,30 @@ func TestVerif_C03_Store(t *testing.T) {
 				}
 			}
 		}
+		// history replay (what GroupMetadataList subscribers and a re-activated group context are handed)
+		for _, reverse := range []bool{false, true} {
+			ch, err := m.ListEvents(vCtx, nil, nil, reverse)
+			if err != nil {
+				rt.Fatalf("harness: ListEvents: %v", err)
+			}
+			sawSentinel := false
+			for ev := range ch {
+				if ev == nil || ev.EventContext == nil {
+					continue
+				}
+				if string(ev.EventContext.Id) == string(forgedID) {
+					for range ch { // drain: the producer goroutine must not leak
+					}
+					fail("forged-event-delivered/history", "the forged entry (%s) was handed to history subscribers (ListEvents reverse=%v)", pick.label, reverse)
+				}
+				if string(ev.EventContext.Id) == string(sentinel) {
+					sawSentinel = true
+				}
+			}
+			if !sawSentinel {
+				fail("genuine-event-missing/history", "the genuine sentinel event is missing from the history replay (reverse=%v)", reverse)
+			}
+		}
 		if after := vDumpGroupState(gc); after != before {
 			fail("forged-event-applied", "state changed by a forged entry (%s):\n%s", pick.label, c04Diff(before, after))
 		}
